@@ -133,6 +133,75 @@ theorem state_to_graph_complete_real_commuting_independent (t : STab) (hn : 0 < 
     ∃ adj gates, S2G.stateToGraph t = .ok (adj, gates) :=
   state_to_graph_exact_complete t hn ⟨⟨hreal, hcomm⟩, hind⟩
 
+/-- **`state_to_graph` returns exactly on the stabilizer states** (tableaux without i-phase): the modelled conversion returns a result
+    iff `n ≥ 1` and the rows commute pairwise and are linearly independent.  (⇐ is `state_to_graph_exact_complete`; ⇒: the re-check
+    `x_inv @ x.T = I` certifies that the X part after the Hadamards is invertible, so the rows were independent, and symmetry of
+    `final_z` forces commutation.) -/
+theorem state_to_graph_returns_iff_state (t : STab) (hreal : ∀ i, i < t.n → (t.row i).ip = false) :
+    (∃ r, S2G.stateToGraph t = .ok r) ↔ (0 < t.n ∧ IsStabilizerState t) := by
+  constructor
+  · rintro ⟨r, h⟩
+    have hgood := state_to_graph_input_is_state S2G.gf2InvF t hreal r h
+    unfold S2G.stateToGraph S2G.stateToGraphWith at h
+    split at h
+    · cases h
+    · next g hg =>
+      have spec := S2G.graphFinderWith_spec S2G.gf2InvF _ g hg
+      exact ⟨spec.n_pos, hgood, S2G.indep_of_gfspec _ g spec⟩
+  · rintro ⟨hn, hs⟩
+    obtain ⟨adj, gates, h⟩ := state_to_graph_exact_complete t hn hs
+    exact ⟨(adj, gates), h⟩
+
+/-- **the returned gates are single-qubit gates** (every n, every input, every candidate inverse): the list is
+    `H` on distinct qubits, then `P_dag` on distinct qubits, then `Z` on distinct qubits, all below `n` — no two-qubit gate.  With
+    `state_to_graph_sound` this says that the returned graph state is LOCAL-Clifford equivalent to the input state. -/
+theorem state_to_graph_gates_are_local (inv : Nat → Adj → Option Adj) (t : STab)
+    (hreal : ∀ i, i < t.n → (t.row i).ip = false) (adj : BMat) (gates : List Gate)
+    (h : S2G.stateToGraphWith inv t = .ok (adj, gates)) :
+    ∃ hpos pdag zs : List Nat, gates = hpos.map Gate.H ++ pdag.map Gate.Pdag ++ zs.map Gate.Z ∧
+      hpos.Nodup ∧ pdag.Nodup ∧ zs.Nodup ∧ (∀ q, q ∈ hpos → q < t.n) ∧ (∀ q, q ∈ pdag → q < t.n) ∧ (∀ q, q ∈ zs → q < t.n) := by
+  obtain ⟨hpos, pdag, zs, e, h1, h2, h3⟩ := stateToGraphWith_gates inv t adj gates h
+  obtain ⟨wf, _⟩ := stateToGraphWith_sound inv t hreal adj gates h
+  refine ⟨hpos, pdag, zs, e, h1, h2, h3, fun q hq => ?_, fun q hq => ?_, fun q hq => ?_⟩
+  · exact wf (Gate.H q) (by rw [e]; simp [hq])
+  · exact wf (Gate.Pdag q) (by rw [e]; simp [hq])
+  · exact wf (Gate.Z q) (by rw [e]; simp [hq])
+
+/-- **every stabilizer state is local-Clifford equivalent to the graph state `state_to_graph` returns** (every n ≥ 1): there is a list
+    of single-qubit `H` / `P_dag` / `Z` gates — the one the modelled conversion returns — that maps the state exactly onto `|G⟩` -/
+theorem state_to_graph_lc_equivalent (t : STab) (hn : 0 < t.n) (hstate : IsStabilizerState t) :
+    ∃ (adj : BMat) (hpos pdag zs : List Nat),
+      S2G.stateToGraph t = .ok (adj, hpos.map Gate.H ++ pdag.map Gate.Pdag ++ zs.map Gate.Z) ∧
+      (∀ q, q ∈ hpos ++ pdag ++ zs → q < t.n) ∧
+      (∀ p, (t.runCircuit (hpos.map Gate.H ++ pdag.map Gate.Pdag ++ zs.map Gate.Z)).Spn p ↔ (graphSTab t.n adj.f).Spn p) := by
+  obtain ⟨adj, gates, h, hs, _⟩ := state_to_graph_correct t hn hstate
+  obtain ⟨hpos, pdag, zs, e, _, _, _, b1, b2, b3⟩ := state_to_graph_gates_are_local S2G.gf2InvF t hstate.1.real adj gates h
+  subst e
+  refine ⟨adj, hpos, pdag, zs, h, fun q hq => ?_, hs.2⟩
+  simp only [List.mem_append] at hq
+  rcases hq with (hq | hq) | hq
+  · exact b1 q hq
+  · exact b2 q hq
+  · exact b3 q hq
+
+/-- **state → graph → state round trip** (every n, every input, every candidate inverse): running the returned gate list BACKWARDS
+    (`run_circuit(reverse=True)`: reversed order, `P ↔ P_dag`) on `graph_to_stabilizer` of the returned graph gives back the
+    input state — the same signed group -/
+theorem state_round_trip (inv : Nat → Adj → Option Adj) (t : STab) (hreal : ∀ i, i < t.n → (t.row i).ip = false)
+    (adj : BMat) (gates : List Gate) (h : S2G.stateToGraphWith inv t = .ok (adj, gates)) :
+    ∀ p, ((graphSTab t.n adj.f).runCircuit (revCirc gates)).Spn p ↔ t.Spn p := by
+  obtain ⟨wf, s, hsym, _⟩ := stateToGraphWith_sound inv t hreal adj gates h
+  have hg := state_to_graph_input_is_state inv t hreal (adj, gates) h
+  have r := runCircuit_rev_spanEq t (graphSTab t.n adj.f) gates wf hg (graphSTab_good t.n adj.f hsym) s
+  exact fun p => ⟨r.sub p, r.sup p⟩
+
+/-- … and on every stabilizer state the round trip is defined (completeness) and returns the state -/
+theorem state_round_trip_total (t : STab) (hn : 0 < t.n) (hstate : IsStabilizerState t) :
+    ∃ adj gates, S2G.stateToGraph t = .ok (adj, gates) ∧
+      ∀ p, ((graphSTab t.n adj.f).runCircuit (revCirc gates)).Spn p ↔ t.Spn p := by
+  obtain ⟨adj, gates, h⟩ := state_to_graph_exact_complete t hn hstate
+  exact ⟨adj, gates, h, state_round_trip S2G.gf2InvF t hstate.1.real adj gates h⟩
+
 /-- non-vacuity: the Bell state `⟨XX, −ZZ⟩` is converted (one Hadamard, one sign-fixing `Z`) to the graph `0 – 1` -/
 def bellMinus : STab :=
   { n := 2, row := fun i => if i = 0 then ⟨fun j => decide (j < 2), fun _ => false, false, false⟩
